@@ -37,7 +37,7 @@ WHAT = {
 }
 
 ARGS = {
-    ("C08", "quick"): ["-modes", "seq,timed,special,conc", "-seq", "700", "-timed", "120", "-conc", "200"],
+    ("C08", "quick"): ["-modes", "seq,timed,special,conc,kill", "-seq", "700", "-timed", "120", "-conc", "200", "-kill", "24"],
     ("C08", "thorough"): ["-modes", "seq,timed,special,conc,kill", "-seq", "5000", "-timed", "800", "-conc", "600", "-kill", "150", "-len", "30"],
     ("C15", "quick"): ["-modes", "seq,timed,special", "-seq", "800", "-timed", "200"],
     ("C15", "thorough"): ["-modes", "seq,timed,special,conc,kill", "-seq", "6000", "-timed", "1500", "-conc", "200", "-kill", "60", "-len", "30"],
@@ -59,17 +59,25 @@ _NOTE = ("Trusted: Coq 8.16.1 kernel + vm_compute; no axioms (Print Assumptions:
          "atomicity of write(2) under SIGKILL are modelled / assumed, not verified.")
 _TECH = "Coq proof over executable model + differential correspondence (vm_compute on harness cases) + observation-only oracles"
 MANIFEST = {
-    "C08": {"text": "FileSink.v model of Process/Reopen/open/rotate/reopen/pruneFiles over a directory of inodes; theorems acked_suffix, no_prune_no_loss, "
-                    "pruned_is_prefix, reading_order, crash_whole_events (every boundary between atomic file-system steps), serialised_writers — over every "
-                    "history of Write/Reopen/ExtRename/Pause, every configuration and every initial set of foreign files, for strictly increasing clock "
-                    "readings and fault-free primitives; tie: filesinkh runs random histories (boundary-biased sizes, Reopen, external rename, pauses around "
-                    "MaxDuration, special paths, 1..8 concurrent writers; thorough: SIGKILLed child) on the real FileSink and Run_FileSink.mismatches is evaluated by "
-                    "vm_compute on the same histories; partial: atomicity of write(2) under SIGKILL is assumed and sampled",
+    "C08": {"text": "FileSink.v: file_sink.go (Process, Reopen, open, rotate, reopen, pruneFiles, newFileName, special paths, write-retry branch under a fault oracle) "
+                    "transcribed over a directory of inodes, every clock reading an input. Theorems over EVERY history of Write/Reopen/ExtRename/Pause, every configuration, "
+                    "every initial set of foreign files, for strictly increasing clock readings (clock_ok) and no failing write(2) (fault_free): "
+                    "acked_is_pruned_plus_reading / acked_suffix (the acknowledged sequence = what retention removed ++ the files read oldest to newest), pruned_is_prefix, "
+                    "no_prune_no_loss, reading_order, no_torn_chunk, crash_whole_events (at every boundary between atomic file-system steps of any call — create/open, close, rename, "
+                    "each single remove of pruneFiles, the one write(2) — the files read as all acknowledged events plus at most the whole in-flight one), serialised_writers "
+                    "(any interleaving of calls, each atomic under FileSink.l: files = events of the nil-returning calls in mutex order). Tie: filesinkh runs random histories "
+                    "(1..200-byte writes biased onto the MaxBytes boundary, Reopen, external rename, pauses around MaxDuration, special paths, 1..8 concurrent writers, a child killed "
+                    "with SIGKILL whose directory must equal one of the model's crash points) on the real FileSink; Run_FileSink evaluates model and C08's own statement on the "
+                    "observations after every step by vm_compute. Partial: atomicity of one write(2) under SIGKILL and the lock discipline (C19) are assumed; the kill generator samples the former.",
             "design_ref": "5.C08", "note": _NOTE, "technique": _TECH, "engine": "coq-filesink"},
-    "C15": {"text": "theorems rotate_iff (with bytes_written_is_since_open), no_limits_never_rotates, stamps_strictly_increase, tsonly_active_plain, mode_and_dir, "
-                    "retention_after_rotation, active_and_foreign_never_removed over every history/configuration (strictly increasing clock, fault-free primitives); "
-                    "tie: same driver, after every call BytesWritten, LastCreated, the listing (rotation boundaries, which files were pruned), file and directory modes and "
-                    "the foreign files are compared with the model; the MaxDuration condition is compared only when the measured interval decides it",
+    "C15": {"text": "same model; theorems rotate_iff (a Process call first rotates <-> MaxBytes > 0 and BytesWritten >= MaxBytes, or MaxDuration > 0 and now - LastCreated > MaxDuration; every state), "
+                    "bytes_written_is_since_open, non_rotating_write_same_file, no_limits_never_rotates, stamps_strictly_increase, tsonly_active_plain / active_file_name / "
+                    "reopen_restores_name, mode_and_dir (+ constants 0600/0700), retention_after_rotation (right after a rotation the rotated files are exactly the newest MaxFiles of those "
+                    "present before pruneFiles, the event sits alone in a file that did not exist before, with the configured name and mode), stamp_order_is_string_order, "
+                    "active_and_foreign_never_removed, special_paths_bypass — over every history/configuration under clock_ok and fault_free. Tie: same driver; after every call "
+                    "BytesWritten, LastCreated, the listing (rotation boundaries, which files were pruned, names by kind), file and directory modes and the foreign files are compared with "
+                    "the model; the MaxDuration condition is compared only when the harness's measured interval decides it, otherwise the observed choice is fed to the model and counted as "
+                    "ambiguous. Partial: the elapsed-time boundary itself (elapsed == MaxDuration) is not observable.",
             "design_ref": "5.C15", "note": _NOTE, "technique": _TECH, "engine": "coq-filesink"},
 }
 ENGINE = {"name": "coq-filesink", "path": "coq/FileSink.v coq/FileSinkProofs.v coq/FileSinkExamples.v coq/Run_FileSink.v harness/cmd/filesinkh lib/eng_filesink.py",
